@@ -73,6 +73,13 @@ def soergel(X, Y=None):
     X, Y = _check_array_pair(X, Y)
     S = np.empty((X.shape[0], Y.shape[0]), dtype=float)
     if issparse(X):
+        same = Y is X
+        if not X.has_sorted_indices:
+            X = X.sorted_indices()
+        if same:
+            Y = X
+        elif not Y.has_sorted_indices:
+            Y = Y.sorted_indices()
         return _sparse_soergel(X.data, X.indices, X.indptr,
                                Y.data, Y.indices, Y.indptr, S)
     return _dense_soergel(X, Y, S)
